@@ -66,7 +66,12 @@ type Case struct {
 	Long    bool    `json:"long,omitempty"` // callee-first order, form-by-form modes: 100 evaluations of the same object
 	Hist    []Step  `json:"hist,omitempty"`
 	Tree    *RNode  `json:"tree,omitempty"` // kind reeval: the form tree
-	Qual    bool    `json:"qual,omitempty"` // a third of the calls of ordinary functions are written package qualified (cl:+, cl-user:f)
+	// GLast: the global variables are defined AFTER the functions (and macros) that refer to
+	// them, GKind[k] names the defining form of *@gk* (defvar | defconstant;
+	// a constant only when the program never assigns the variable)
+	GLast bool     `json:"glast,omitempty"`
+	GKind []string `json:"gkind,omitempty"`
+	Qual  bool     `json:"qual,omitempty"` // a third of the calls of ordinary functions are written package qualified (cl:+, cl-user:f)
 }
 
 type sig struct {
